@@ -216,4 +216,44 @@ def lineStep (s : Sh) (toks : List String) : Sh × String :=
         | [] => (s, "stuck")
   | _ => (s, "bad-op")
 
+/-! ## the forced schedules of the `vr` section on this model
+
+`vr o<k> <event>… => <result>`: listener 0 and `k` further listeners of one value exist; the waiter of listener 0 has
+passed its flag check and is parked before the `select`; the events (`dereg` of listener 0, `notify`, `cancel`,
+`odereg` = the next other listener deregisters) run to completion one after the other; then the waiter is released.
+The result must be one this model admits (the context may be done at any time in this model, so `canceled` is always
+admitted here; the one-generation model of `EventsNotifierRace.lean` is the sharper judge of that). -/
+
+def vrResults (s : Sh) : List String :=
+  (step s (.w1 0)).flatMap fun (s1, t1) =>
+    match t1 with
+    | .w2 _ => (step s1 (.w2 0)).map (fun p => resultOf p.2)
+    | t => [resultOf t]
+
+def vrRun : Sh → Nat → List String → Option Sh
+  | s, _, [] => some s
+  | s, k, "dereg" :: r => vrRun (runToEnd 4 s (.dr 0 none .swap)) k r
+  | s, k, "notify" :: r => vrRun (runToEnd 3 s (.ntCheck 7)) k r
+  | s, k, "cancel" :: r => vrRun s k r
+  | s, k, "odereg" :: r => vrRun (runToEnd 4 s (.dr (k + 1) none .swap)) (k + 1) r
+  | _, _, _ => none
+
+def checkVR (toks : List String) : String :=
+  match toks with
+  | o :: rest =>
+    match (o.drop 1).toNat?, o.startsWith "o" with
+    | some k, true =>
+      let evs := rest.takeWhile (· != "=>")
+      match rest.dropWhile (· != "=>") with
+      | ["=>", res] =>
+        let s0 := (List.range (k + 1)).foldl (fun s _ => runToEnd 2 s (.mk 7 false)) init
+        match vrRun s0 0 evs with
+        | some s =>
+          let want := if res == "canceled" then "ctx" else res
+          if (vrResults s).contains want then "accept" else "reject result-not-admitted-by-the-concurrent-model"
+        | none => "bad-op"
+      | _ => "bad-op"
+    | _, _ => "bad-op"
+  | _ => "bad-op"
+
 end Hive.NotifierConc
